@@ -87,11 +87,10 @@ def g(a, b):
     return t
 ''')
 
-case('helper with an early return in the middle is left alone', '''
+case('procedure helper with an early return: tail-structured, expanded', '''
 def g(a):
-    if a:
-        return 1
-    h(a)
+    if not a:
+        h(a)
     return 2
 ''', '''
 def g(a):
@@ -103,6 +102,226 @@ def _maybe(a):
     if a:
         return
     h(a)
+''', '''
+def g(a):
+    if not a:
+        h(a)
+    return 2
+''')
+
+case('helper whose return sits inside a loop is left alone', '''
+def g(xs):
+    while xs:
+        if xs.pop():
+            return 1
+    return 2
+''', '''
+def g(xs):
+    return _first(xs)
+
+
+def _first(xs):
+    while xs:
+        if xs.pop():
+            return 1
+    return 2
+''', None)
+
+case('return-tree helper at a return site', '''
+def g(v):
+    m = match(v)
+    if m:
+        a, b = m.groups()
+        return a + b
+    if other(v):
+        return v
+    return quote(v)
+''', '''
+def g(v):
+    return _q(v)
+
+
+def _q(value):
+    mm = match(value)
+    if mm:
+        a, b = mm.groups()
+        return a + b
+    if other(value):
+        return value
+    return quote(value)
+''', '''
+def g(v):
+    m = match(v)
+    if m:
+        a, b = m.groups()
+        return a + b
+    if other(v):
+        return v
+    return quote(v)
+''')
+
+case('return-tree helper at an assignment site that re-binds its argument', '''
+def g(v, p):
+    if p:
+        with ctx():
+            v = interp(v, p)
+    return done(v)
+''', '''
+def g(v, p):
+    v = _ip(v, p)
+    return done(v)
+
+
+def _ip(v, p):
+    if not p:
+        return v
+    with ctx():
+        v = interp(v, p)
+    return v
+''', '''
+def g(v, p):
+    if p:
+        with ctx():
+            v = interp(v, p)
+    return done(v)
+''')
+
+case('new name for a re-bound local is renamed back', '''
+def g(name, flag):
+    check(name)
+    name = norm(name)
+    if name.startswith('.'):
+        raise E
+    if flag:
+        reserved(name)
+''', '''
+def g(name, flag):
+    check(name)
+    clean = norm(name)
+    if clean.startswith('.'):
+        raise E
+    if flag:
+        reserved(clean)
+''', '''
+def g(name, flag):
+    check(name)
+    name = norm(name)
+    if name.startswith('.'):
+        raise E
+    if flag:
+        reserved(name)
+''')
+
+case('new name for a re-bound local stays when the old value is still used',
+     '''
+def g(name, flag):
+    name = norm(name)
+    if flag:
+        reserved(name)
+''', '''
+def g(name, flag):
+    clean = norm(name)
+    if flag:
+        reserved(clean, name)
+''', None)
+
+case('alias of an item of a local mapping across calls that do not touch it',
+     '''
+def g(handle, conf):
+    if conf['env']:
+        handle.write('x')
+        for v in conf['env']:
+            handle.write(v)
+        for v, w in conf['env'].items():
+            handle.write(w, conf.get('p', {}))
+''', '''
+def g(handle, conf):
+    env = conf['env']
+    if env:
+        handle.write('x')
+        for v in env:
+            handle.write(v)
+        for v, w in env.items():
+            handle.write(w, conf.get('p', {}))
+''', '''
+def g(handle, conf):
+    if conf['env']:
+        handle.write('x')
+        for v in conf['env']:
+            handle.write(v)
+        for v, w in conf['env'].items():
+            handle.write(w, conf.get('p', {}))
+''')
+
+case('a call with effects is not moved into a conditional branch', '''
+def g(a, flag):
+    if flag:
+        use(a)
+''', '''
+def g(a, flag):
+    t = make(a)
+    if flag:
+        use(t)
+''', None)
+
+case('a call with effects is not moved past another call of the statement',
+     '''
+def g(a):
+    use(a)
+''', '''
+def g(a):
+    t = make(a)
+    use(other(), t)
+''', None)
+
+case('a call with effects moves to an immediately following first use', '''
+def g(a):
+    use(make(a), other())
+''', '''
+def g(a):
+    t = make(a)
+    use(t, other())
+''', '''
+def g(a):
+    use(make(a), other())
+''')
+
+case('alias of an attribute of self stays when a block of the last-use '
+     'statement calls a method that re-binds it', '''
+class K:
+    def m(self):
+        self.x = 1
+
+    def g(self, c):
+        if c:
+            self.m()
+            use(self.x)
+''', '''
+class K:
+    def m(self):
+        self.x = 1
+
+    def g(self, c):
+        v = self.x
+        if c:
+            self.m()
+            use(v)
+''', None)
+
+case('alias of an item of a local mapping stays when the mapping escapes',
+     '''
+def g(handle, conf):
+    if conf['env']:
+        handle.write(conf)
+        for v in conf['env']:
+            handle.write(v)
+''', '''
+def g(handle, conf):
+    env = conf['env']
+    if env:
+        handle.write(conf)
+        for v in env:
+            handle.write(v)
 ''', None)
 
 case('helper also passed as a callback keeps its definition', '''
